@@ -25,6 +25,52 @@ from axolotl.axolotladdress import AxolotlAddress  # noqa: E402
 def main():
     spec = json.load(open(sys.argv[1]))
     store = LiteAxolotlStore(spec["db"])
+    if spec.get("orderly_abort_after"):
+        # the process is told to terminate (SIGTERM, handled the usual way: sys.exit) while the update is under way: the handler
+        # runs when the k-th statement of the update has been executed, and the interpreter then shuts down in an orderly fashion
+        import signal
+        signal.signal(signal.SIGTERM, lambda *a: sys.exit(7))
+        seen = [0]
+        k = int(spec["orderly_abort_after"])
+
+        def after(q):
+            if q.lstrip().upper().startswith(("INSERT", "DELETE", "UPDATE", "REPLACE")):
+                seen[0] += 1
+                if seen[0] == k:
+                    os.kill(os.getpid(), signal.SIGTERM)     # (the handler runs here, in Python code of the main thread)
+
+        class _Cursor(object):
+            def __init__(self, real):
+                self._real = real
+
+            def execute(self, q, *a):
+                self._real.execute(q, *a)
+                after(q)
+                return self
+
+            def __getattr__(self, name):
+                return getattr(self._real, name)
+
+            def __iter__(self):
+                return iter(self._real)
+
+        class _Conn(object):
+            def __init__(self, real):
+                self._real = real
+
+            def cursor(self):
+                return _Cursor(self._real.cursor())
+
+            def execute(self, q, *a):
+                r = self._real.execute(q, *a)
+                after(q)
+                return r
+
+            def __getattr__(self, name):
+                return getattr(self._real, name)
+        wrapped = _Conn(store.identityKeyStore.dbConn)
+        for sub in (store.identityKeyStore, store.preKeyStore, store.signedPreKeyStore, store.sessionStore, store.senderKeyStore):
+            sub.dbConn = wrapped
     call = spec["call"]
     b = bytes.fromhex(spec["record"]) if spec.get("record") else None
     if call == "saveIdentity":
